@@ -28,7 +28,7 @@ theorem accept_inv {x : Option Nat} {w : World} (h : WInvX x w) (p : Nat) (ppr :
     | none => rfl
     | some l => have := (h.pingTimer p ppr l hpp hl).2.1; rw [hs] at this; cases this
   have hko := fun t' k hk' => kill_other htm .cancelled (by simp) (w' := acceptW w p ppr c.alarm tm st) rfl hpe t' k hk'
-  apply protoStep_inv h (acceptW w p ppr c.alarm tm st) p ppr { ppr with state := st } hpp rfl rfl rfl rfl rfl rfl rfl rfl rfl
+  apply protoStep_inv h (acceptW w p ppr c.alarm tm st) p ppr { ppr with state := st } hpp rfl rfl rfl rfl rfl rfl rfl rfl rfl rfl
   · intro q; simp only [acceptW, Dict.get?_set]
   · intro t' q rid; exact hko _ _ (by simp)
   · intro t' cr'; exact fun hp' => ((kill_pending htm .cancelled (by simp) rfl t' _).mp hp').1
@@ -83,7 +83,7 @@ theorem loopOn_inv {x : Option Nat} {w : World} (h : WInvX x w) (p : Nat) (ppr :
     | false => rfl
     | true => have := (h.lostIdle p ppr hpp hl).1; rw [hs] at this; cases this
   apply protoStep_inv h (loopOnW w p ppr ka) p ppr { ppr with pingKeepalive := some ka, pingTimer := some ⟨true, ka, none⟩ } hpp
-    rfl rfl rfl rfl rfl rfl rfl rfl rfl
+    rfl rfl rfl rfl rfl rfl rfl rfl rfl rfl
   · intro q; simp only [loopOnW, Dict.get?_set]
   · intro _ _ _; exact Iff.rfl
   · intro _ _; exact id
@@ -124,7 +124,7 @@ theorem pingArm_inv {x : Option Nat} {w : World} (h : WInvX x w) (p : Nat) (ppr 
     (hpa : ppr.pingAlarm = none) (hnl : ppr.lost = false) (due : Nat) (log' : List Obs) : WInvX x (pingArmW w p ppr due log') := by
   have hao := fun t' k hk' => add_other h due (.pingAlarm p) (w' := pingArmW w p ppr due log') rfl t' k hk'
   have hap := add_pending h due (.pingAlarm p) (w' := pingArmW w p ppr due log') rfl
-  apply protoStep_inv h (pingArmW w p ppr due log') p ppr { ppr with pingAlarm := some w.nextTimer } hpp rfl rfl rfl rfl rfl rfl rfl rfl rfl
+  apply protoStep_inv h (pingArmW w p ppr due log') p ppr { ppr with pingAlarm := some w.nextTimer } hpp rfl rfl rfl rfl rfl rfl rfl rfl rfl rfl
   · intro q; simp only [pingArmW, Dict.get?_set]
   · intro t' q rid; exact hao _ _ (by simp)
   · intro t' cr'; exact (hao _ _ (by simp)).mp
@@ -176,7 +176,7 @@ theorem loopSched_inv {x : Option Nat} {w : World} (h : WInvX x w) (p : Nat) (pp
   have hao := fun t' k hk' => add_other h due (.pingLoop p) (w' := loopSchedW w p ppr l due) rfl t' k hk'
   have hap := add_pending h due (.pingLoop p) (w' := loopSchedW w p ppr l due) rfl
   apply protoStep_inv h (loopSchedW w p ppr l due) p ppr { ppr with pingTimer := some { l with call := some w.nextTimer } } hpp
-    rfl rfl rfl rfl rfl rfl rfl rfl rfl
+    rfl rfl rfl rfl rfl rfl rfl rfl rfl rfl
   · intro q; simp only [loopSchedW, Dict.get?_set]
   · intro t' q rid; exact hao _ _ (by simp)
   · intro t' cr'; exact (hao _ _ (by simp)).mp
@@ -228,7 +228,7 @@ theorem loopKill_inv {x : Option Nat} {w : World} (h : WInvX x w) (p : Nat) (ppr
     | false => rfl
     | true => have := (h.lostIdle p ppr hpp hl').1; rw [b2] at this; cases this
   have hko := fun t' k hk' => kill_other htm st hst (w' := loopKillW w p ppr t tm st pt now') rfl hpe t' k hk'
-  apply protoStep_inv h (loopKillW w p ppr t tm st pt now') p ppr { ppr with pingTimer := pt } hpp rfl rfl rfl rfl rfl rfl rfl rfl rfl
+  apply protoStep_inv h (loopKillW w p ppr t tm st pt now') p ppr { ppr with pingTimer := pt } hpp rfl rfl rfl rfl rfl rfl rfl rfl rfl rfl
   · intro q; simp only [loopKillW, Dict.get?_set]
   · intro t' q rid; exact hko _ _ (by simp)
   · intro t' cr'; exact (hko _ _ (by simp)).mp
@@ -271,7 +271,7 @@ def loopDropW (w : World) (p : Nat) (ppr : Proto) : World :=
 /-- a LoopingCall that has nothing scheduled is dropped -/
 theorem loopDrop_inv {x : Option Nat} {w : World} (h : WInvX x w) (p : Nat) (ppr : Proto) (hpp : w.protos.get? p = some ppr)
     (hidle : ∀ l, ppr.pingTimer = some l → l.call = none) : WInvX x (loopDropW w p ppr) := by
-  apply protoStep_inv h (loopDropW w p ppr) p ppr { ppr with pingTimer := none } hpp rfl rfl rfl rfl rfl rfl rfl rfl rfl
+  apply protoStep_inv h (loopDropW w p ppr) p ppr { ppr with pingTimer := none } hpp rfl rfl rfl rfl rfl rfl rfl rfl rfl rfl
   · intro q; simp only [loopDropW, Dict.get?_set]
   · intro _ _ _; exact Iff.rfl
   · intro _ _; exact id
@@ -325,7 +325,7 @@ theorem connDone_inv {x : Option Nat} {w : World} (h : WInvX x w) (p : Nat) (ppr
   refine ⟨hnf, ?_⟩
   have h1 : WInvX x { w with protos := w.protos.set p { ppr with connReq := none } } := by
     apply protoStep_inv h ({ w with protos := w.protos.set p { ppr with connReq := none } } : World) p ppr { ppr with connReq := none } hpp
-      rfl rfl rfl rfl rfl rfl rfl rfl rfl
+      rfl rfl rfl rfl rfl rfl rfl rfl rfl rfl
     · intro q; simp only [Dict.get?_set]
     · intro _ _ _; exact Iff.rfl
     · intro _ _; exact id
